@@ -108,7 +108,7 @@ def r3(ctx):
     cfg = ctx.cfg(h)
     und = util.params_of(h.node)[6]
     ctx.require(und == "undecided_reads", "7th parameter of readselection_helper is not undecided_reads")
-    outer = [n for n in walk_function(h.node) if isinstance(n, ast.While) and atoms(n.test, True) == {("0 < len(%s)" % und, True)}]
+    outer = [n for n in walk_function(h.node) if isinstance(n, ast.While) and atoms(n.test, True) == {(und, True)}]
     ctx.ob(h.qual, "loops-while-undecided-reads-remain", len(outer) == 1, h.loc(outer[0]) if outer else h.loc(), "the selection loop runs until no read is undecided" if outer else "outer loop is not `while len(undecided_reads) > 0`")
     sl = ctx.func(RS + "._slice_read_selection")
     scfg = ctx.cfg(sl)
